@@ -146,12 +146,12 @@ pub fn record(args: &Args) {
                                 }
                                 // small games also at a budget at which the envelope is tight enough to see a
                                 // solver that settles on a non-equilibrium
-                                if t.count() <= 15 && k == 1 && s == 0 && run_event(&mut out, t, meth, preset, k, 160000, 0.0, sd, false, false).is_some() {
+                                if t.count() <= 20 && k == 1 && s == 0 && run_event(&mut out, t, meth, preset, k, 160000, 0.0, sd, false, false).is_some() {
                                     runs += 1;
                                 }
                                 // ... and once with LIVE randomness, so that the production samplers (not the pinned
                                 // draws of the hook) decide what is explored; the envelope leaves a factor of about 20
-                                if t.count() <= 15 && s == 0 && k == 1 && run_event(&mut out, t, meth, preset, k, 160000, 0.0, u64::MAX, false, false).is_some() {
+                                if t.count() <= 20 && s == 0 && k == 1 && run_event(&mut out, t, meth, preset, k, 160000, 0.0, u64::MAX, false, false).is_some() {
                                     runs += 1;
                                 }
                             }
